@@ -155,6 +155,14 @@ func Build(doc *ast.SchemaDocument) *Model {
 		}
 		m.args(d.Arguments, self, n)
 	}
+	// root operation types are object types (spec 3.3.1), whether named explicitly or taken by default name
+	for _, op := range []ast.Operation{ast.Query, ast.Mutation, ast.Subscription} {
+		if n := m.Root(op); n != "" {
+			if t := m.Types[n]; t != nil && t.Kind != ast.Object {
+				m.bad("root-kind", fmt.Sprintf("root %s is the %s %s, not an object type", op, t.Kind, n), "schema", "type:"+n)
+			}
+		}
+	}
 	return m
 }
 
